@@ -320,7 +320,7 @@ class ProgGen:
         if len(S) < self.max_stack:
             cands += ['PUSH'] * (4 if len(S) < 2 else 1)
             # the same composite value under independently annotated types, compared / used as a collection key
-            cands += ['CMP_PAIRS', 'SET_PAIRS', 'MAP_PAIRS']
+            cands += ['CMP_PAIRS', 'SET_PAIRS', 'MAP_PAIRS', 'MAP_ENTRY']
         if S:
             cands += ['DROP', 'DUP', 'GET0']        # GET 0 :: a : S -> a : S, any a
             if not big:
@@ -353,6 +353,27 @@ class ProgGen:
         if c == 'PUSH':
             sh = rand_shape(rng, rng.choice([1, 2, 3]), rng.choice([0.3, 0.7, 0.9]))
             return [self.push(sh)], [sh] + S
+        if c == 'MAP_ENTRY':
+            # a map whose stored key and value come out of ONE annotated pair (UNPAIR keeps the components' `%field`s on the
+            # value objects): EMPTY_MAP k v ; PUSH (pair (k %a) (v %b)) .. ; UNPAIR ; DIP { SOME } ; UPDATE, then MAP over it
+            K = (rng.choice(['nat', 'int', 'string', 'bytes', 'bool']),) if rng.random() < 0.6 else rand_cmp_shape(rng)
+            V = rand_shape(rng, rng.choice([1, 2]), rng.choice([0.3, 0.7]))
+            ins = [{'prim': 'EMPTY_MAP', 'args': [self.ty(K), self.ty(V)]}]
+            for _ in range(rng.choice([1, 1, 2])):
+                kt, vt = annotate(rng, K, rng.choice([0.0, 0.9]), True), annotate(rng, V, rng.choice([0.0, 0.9]), True)
+                for t in (kt, vt):
+                    if rng.random() < 0.7:
+                        t['annots'] = [a for a in t.get('annots', []) if a[0] != '%'] + ['%' + rng.choice(NAMES)]
+                ins += [{'prim': 'PUSH', 'args': [{'prim': 'pair', 'args': [kt, vt]}, {'prim': 'Pair', 'args': [small_value(rng, K), rand_value(rng, V)]}]},
+                        {'prim': 'UNPAIR'}, {'prim': 'DIP', 'args': [[{'prim': 'SOME'}]]}, {'prim': 'UPDATE'}]
+            k = rng.randrange(4)
+            if k == 0:
+                return ins, [('map', K, V)] + S
+            if k == 1:
+                return ins + [{'prim': 'MAP', 'args': [[{'prim': 'CDR'}]]}], [('map', K, V)] + S
+            if k == 2:
+                return ins + [{'prim': 'MAP', 'args': [[{'prim': 'CAR'}]]}], [('map', K, K)] + S
+            return ins + [{'prim': 'MAP', 'args': [[{'prim': 'CDR'}, {'prim': 'SOME'}]]}], [('map', K, ('option', V))] + S
         if c in ('CMP_PAIRS', 'SET_PAIRS', 'MAP_PAIRS'):
             K = rand_cmp_shape(rng)
             v1 = small_value(rng, K)
